@@ -702,7 +702,8 @@ pub fn run(ctx: &mut Ctx, mode: AMode) -> RunResult {
     let k = Knobs::draw(ctx, mode);
     let seg_mode = Link::draw_mode(ctx);
     let mut sender = Sender::new();
-    let max_ops = 12;
+    // deeper histories in the thorough tier
+    let max_ops = if ctx.tier_thorough { 40 } else { 12 };
     let mut ops = 0;
     while ops < max_ops {
         if !sender.step(ctx, &k, mode)? {
